@@ -1,7 +1,9 @@
 """C07 — stream search equals in-memory search for every read schedule (DESIGN.md §5 C07)."""
 from rules.stream import RULES_C07 as RULES, STREAM_CONFIGS
+from rules.prefilter import r05_3
+from rules.agree import r04_1
 from rules.agree import r20_1
-RULES = list(RULES) + [('R20.1', r20_1)]
+RULES = list(RULES) + [('R05.3', r05_3), ('R04.1', r04_1), ('R20.1', r20_1)]
 
 LEVEL = 'other'
 THOROUGH_CONFIGS = ['default', 'std', 'logging']
